@@ -463,7 +463,26 @@ def t_blind_numbers(ctx):
     def m_ifd(c, isle_num, i, scalars, offsets, doislandflux):
         made.append(isle_num)
         return Obj('IslandFittingData', isle_num=isle_num)
-    img = SArr.fresh("img", (Sym(z3.Int('R')), Sym(z3.Int('C'))), with_nan=True)
+    class _Img(PyObj):
+        """the finder's image, tracked for aliasing only: slices are views, writes through a view reach the image"""
+        written = False
+
+        def getitem_(s, c, k):
+            return _View(s)
+
+    class _View(PyObj):
+        def __init__(s, base):
+            s.base = base
+
+        def setitem_(s, c, k, v):
+            if s.base is not None:
+                s.base.written = True
+
+        def getattr_(s, c, name):
+            if name == 'copy':
+                return Model(lambda c2: _View(None), 'ndarray.copy')
+            raise Undecided("ndarray." + name)
+    img = _Img()
     gd = Obj('gd', img=img)
     island = Obj('PixelIsland', bounding_box=[[Sym(z3.Int('bx0')), Sym(z3.Int('bx1'))], [Sym(z3.Int('by0')), Sym(z3.Int('by1'))]],
                  mask=Opaque('mask'))
@@ -478,8 +497,13 @@ def t_blind_numbers(ctx):
                'outerclip': sym('oc'), 'max_summits': None, 'doislandflux': False, 'self': Obj('self', log=Namespace('log')),
                'nopositive': Sym(z3.Bool('nopositive')), 'nonegative': Sym(z3.Bool('nonegative')),
                'np': lib.std_np(any=Model(m_any), isfinite=Model(lambda c, x: Opaque('finite')),
-                                nanmax=Model(lambda c, x: c.fresh_real('nanmax')), nanmin=Model(lambda c, x: c.fresh_real('nanmin'))),
-               'copy': Namespace('copy', deepcopy=Model(lambda c, x: _Cut())),
+                                nanmax=Model(lambda c, x: c.fresh_real('nanmax')), nanmin=Model(lambda c, x: c.fresh_real('nanmin')),
+                                array=Model(lambda c, x, *a, **k: _View(None) if k.get('copy', True) is not False else x, 'np.array'),
+                                # these return their argument when no conversion is needed: the result may alias the image
+                                ascontiguousarray=Model(lambda c, x, *a, **k: x, 'np.ascontiguousarray'),
+                                asarray=Model(lambda c, x, *a, **k: x, 'np.asarray'),
+                                asanyarray=Model(lambda c, x, *a, **k: x, 'np.asanyarray')),
+               'copy': Namespace('copy', deepcopy=Model(lambda c, x: _View(None)), copy=Model(lambda c, x: _View(None))),
                'IslandFittingData': Model(m_ifd)})
     ctx.interp.relpath = FILE
     try:
@@ -493,6 +517,7 @@ def t_blind_numbers(ctx):
                And(n1 == n0 + len(made), *[m == n0 + 1 for m in made]) if len(made) <= 1 else False)
     ctx.oblige("post", "blind.island_is_dropped_only_when_it_has_no_finite_pixel",
                len(made) == 1 or (len(anyfin) == 1 and anyfin[0] is False))
+    ctx.oblige("post", "blind.masking_the_island_cut_out_never_writes_to_the_image", not img.written)
     ctx.oblige("post", "blind.fitted_island_is_queued_once", len(group) == len(made) if isinstance(group, list) else False)
 
 
